@@ -78,6 +78,7 @@ struct Ring {
     info: RingInfo,
     _bufs: Vec<Vec<u8>>,
     kview: Option<kview::KView>,
+    use_drain: bool,
 }
 
 fn setup_ring(bits: u32, entries: u32, w: &World) -> Result<Ring, String> {
@@ -90,8 +91,8 @@ fn setup_ring(bits: u32, entries: u32, w: &World) -> Result<Ring, String> {
     }
     let files: Vec<Fd> = (0..NPERM).map(|i| Fd::try_new(w.fds[w.perm[i]].fd[0]).unwrap()).collect();
     io_uring_register_files(u.fd, &files).map_err(|e| format!("register files: {e}"))?;
-    let kview = if bits & B_SQPOLL != 0 { kview::KView::new(u.fd.value(), bits, entries, 2).ok() } else { None };
-    Ok(Ring { u, bits, sq_entries: entries.next_power_of_two(), sqpoll: bits & B_SQPOLL != 0, info, _bufs: bufs, kview })
+    let kview = kview::KView::new(u.fd.value(), bits, entries, 2).ok();
+    Ok(Ring { u, bits, sq_entries: entries.next_power_of_two(), sqpoll: bits & B_SQPOLL != 0, info, _bufs: bufs, kview, use_drain: false })
 }
 
 fn enter(fd: Fd, to_submit: u32, min_complete: u32, flags: IoUringEnterFlags) -> Result<usize, i64> {
@@ -129,6 +130,10 @@ struct Stats {
     poll_not_ready: u64,
     wakeups: u64,
     slot_waits: u64,
+    tmpfiles: u64,
+    tmpfile_unsupported: u64,
+    extra_flushes: u64,
+    partial_enters: u64,
     kernel_dependent_links: u64,
     t_ring: i128,
     t_twin: i128,
@@ -168,6 +173,22 @@ fn run_batch(ring: &mut Ring, w: &mut World, b: &mut Batch, serial: &mut u64, sa
     }
     let first_serial = *serial;
     let ring_desc = format!("{{\"entries\":{},\"flags\":{}}}", ring.sq_entries, vh::js(&flag_names(ring.bits)));
+    // ---- how a user of the wrapper publishes and submits this batch (from the seed):
+    //   0: write all, one flush, io_uring_enter(to_submit = what flush returned)
+    //   1: write in chunks with a flush after each chunk, io_uring_enter(to_submit = what the LAST flush returned)
+    //   2: one flush, a first io_uring_enter that takes only part (cut between units), then flush + enter again
+    // (SQPOLL rings: always 0, the poller would otherwise pick up half a chain)
+    // (rings that decorate with IOSQE_IO_DRAIN keep to style 0 as well: the kernel's drain bookkeeping and
+    //  a submission split over several io_uring_enter calls is kernel territory, seen to park requests)
+    let style = if ring.sqpoll || ring.use_drain || n < 2 { 0 } else { [0, 0, 0, 1, 1, 2][r.below(6) as usize] };
+    let mut flush_after: HashSet<usize> = HashSet::new();
+    if style == 1 {
+        for _ in 0..r.range(1, 2) {
+            flush_after.insert(r.below(n as u64 - 1) as usize);
+        }
+    }
+    let unit_cuts: Vec<usize> = (1..n).filter(|i| b.ops[*i].chain.is_none() || b.ops[*i].chain != b.ops[*i - 1].chain).collect();
+    let mut last_flush: u32 = 0;
     // ---- fill the submission queue
     for i in 0..n {
         b.ops[i].ud = salt ^ *serial;
@@ -216,7 +237,18 @@ fn run_batch(ring: &mut Ring, w: &mut World, b: &mut Batch, serial: &mut u64, sa
                 return Err(Fatal::Inconclusive("get_next_sqe_slot panicked".into()));
             }
         }
+        if flush_after.contains(&i) {
+            st.extra_flushes += 1;
+            match vh::catch(|| ring.u.flush_submission_queue()) {
+                Ok(v) => last_flush = v,
+                Err(p) => {
+                    viol(st, "C18/flush/panic", format!("{{\"panic\":{}}}", vh::js(&p)));
+                    return Err(Fatal::Inconclusive("flush panicked".into()));
+                }
+            }
+        }
     }
+    let _ = last_flush;
     let t_submit = sys::mono_ns();
     let flushed = match vh::catch(|| ring.u.flush_submission_queue()) {
         Ok(v) => v,
@@ -229,6 +261,7 @@ fn run_batch(ring: &mut Ring, w: &mut World, b: &mut Batch, serial: &mut u64, sa
         viol(st, "C18/flush/wrong-pending-count", format!("{{\"returned\":{flushed},\"queued\":{n},\"ring\":{ring_desc}}}"));
     }
     // ---- submit
+    let mut accepted = 0usize;
     if ring.sqpoll {
         // the documented protocol, deciding with the wrapper's needs_wakeup() only
         let (wake, refuted) = wakeup_decision(&ring.u, ring.kview.as_ref());
@@ -242,32 +275,49 @@ fn run_batch(ring: &mut Ring, w: &mut World, b: &mut Batch, serial: &mut u64, sa
             }
         }
     } else {
-        let mut left = n as u32;
+        // to_submit is what the wrapper's flush reported, never the harness' own count
+        let mut to_submit = flushed;
         let mut rounds = 0;
-        while left > 0 {
-            match enter(ring.u.fd, left, 0, IoUringEnterFlags::empty()) {
+        if style == 2 && !unit_cuts.is_empty() {
+            let k = unit_cuts[r.below(unit_cuts.len() as u64) as usize] as u32;
+            to_submit = to_submit.min(k);
+            st.partial_enters += 1;
+        }
+        while to_submit > 0 {
+            match enter(ring.u.fd, to_submit, 0, IoUringEnterFlags::empty()) {
                 Ok(0) => {
                     viol(
                         st,
                         "C18/submit/entries-not-seen-by-kernel",
-                        format!("{{\"to_submit\":{left},\"batch\":{n},\"ring\":{ring_desc}}}"),
+                        format!("{{\"to_submit\":{to_submit},\"batch\":{n},\"ring\":{ring_desc}}}"),
                     );
                     return Err(Fatal::Inconclusive("kernel consumed nothing".into()));
                 }
                 Ok(s) => {
-                    left = left.saturating_sub(s as u32);
-                    if left > 0 {
+                    accepted += s;
+                    if (s as u32) < to_submit {
                         st.resubmits += 1;
                     }
                 }
                 Err(e) => return Err(Fatal::Inconclusive(format!("io_uring_enter(submit) failed {}", show(e)))),
             }
+            // what is still to be submitted? ask the wrapper again, as a user would
+            to_submit = match vh::catch(|| ring.u.flush_submission_queue()) {
+                Ok(v) => v,
+                Err(p) => {
+                    viol(st, "C18/flush/panic", format!("{{\"panic\":{}}}", vh::js(&p)));
+                    return Err(Fatal::Inconclusive("flush panicked".into()));
+                }
+            };
             rounds += 1;
             if rounds > 2 * n + 4 {
                 return Err(Fatal::Inconclusive("submission did not finish".into()));
             }
         }
     }
+    // the kernel's own count of published-but-unconsumed entries (independent mapping), for the certificate below
+    let kernel_pending = if ring.sqpoll { 0 } else { ring.kview.as_ref().map_or(0, kview::KView::sq_pending) };
+    let expect = if ring.sqpoll { n } else { accepted.min(n) };
     // ---- actions that make waiting operations complete
     for (oi, li) in b.post.clone() {
         match w.connect_client(li) {
@@ -281,14 +331,26 @@ fn run_batch(ring: &mut Ring, w: &mut World, b: &mut Batch, serial: &mut u64, sa
     let mut rounds = 0;
     let mut problems: Vec<(String, String)> = Vec::new();
     loop {
-        let missing = n - reaped.min(n);
+        let missing = expect - reaped.min(expect);
         if missing == 0 {
             break;
         }
-        if let Err(e) = enter(ring.u.fd, 0, missing as u32, IoUringEnterFlags::IORING_ENTER_GETEVENTS) {
+        // when io_uring_enter took fewer entries than the batch has, a taken operation may wait for one that was
+        // never submitted: do not block then, collect what completes within a bounded number of looks
+        let min_complete = if expect < n { 0 } else { missing as u32 };
+        if expect < n {
+            if rounds >= 150 {
+                break;
+            }
+            std::thread::sleep(std::time::Duration::from_millis(2));
+        }
+        if let Err(e) = enter(ring.u.fd, 0, min_complete, IoUringEnterFlags::IORING_ENTER_GETEVENTS) {
             return Err(Fatal::Inconclusive(format!("io_uring_enter(wait {missing}) failed {}", show(e))));
         }
         let before = reaped;
+        if std::env::var_os("C18_TRACE").is_some() {
+            eprintln!("TRACE batch {} n {n} accepted {accepted} expect {expect} style {style} reaped {reaped} kview pending {:?}", st.batches, ring.kview.as_ref().map(kview::KView::sq_pending));
+        }
         loop {
             let c = match vh::catch(|| ring.u.get_next_cqe().map(|c| (c.0.user_data, c.0.res, c.0.flags))) {
                 Ok(c) => c,
@@ -299,6 +361,9 @@ fn run_batch(ring: &mut Ring, w: &mut World, b: &mut Batch, serial: &mut u64, sa
             };
             let Some((ud, res, _fl)) = c else { break };
             reaped += 1;
+            if std::env::var_os("C18_TRACE").is_some() {
+                eprintln!("TRACE   cqe ud {} -> op {:?} res {res}", ud ^ salt, by_ud.get(&ud));
+            }
             match by_ud.get(&ud) {
                 Some(i) => {
                     b.ops[*i].ncqe += 1;
@@ -319,7 +384,7 @@ fn run_batch(ring: &mut Ring, w: &mut World, b: &mut Batch, serial: &mut u64, sa
             }
         }
         rounds += 1;
-        if reaped == before {
+        if reaped == before && expect == n {
             // the kernel reported `missing` completions available, the wrapper hands out none
             if rounds >= 3 {
                 break;
@@ -342,7 +407,10 @@ fn run_batch(ring: &mut Ring, w: &mut World, b: &mut Batch, serial: &mut u64, sa
             viol(
                 st,
                 "C18/completion/missing",
-                format!("{{\"op\":{},\"batch_size\":{n},\"reaped\":{reaped},\"ring\":{ring_desc}}}", vh::js(&o.describe())),
+                format!(
+                    "{{\"op\":{},\"batch_size\":{n},\"reaped\":{reaped},\"taken_by_io_uring_enter\":{accepted},\"submission_style\":{style},\"kernel_sq_entries_published_but_never_submitted\":{kernel_pending},\"ring\":{ring_desc}}}",
+                    vh::js(&o.describe())
+                ),
             );
             ok = false;
         }
@@ -496,6 +564,13 @@ fn run_batch(ring: &mut Ring, w: &mut World, b: &mut Batch, serial: &mut u64, sa
         let o = &b.ops[i];
         match &o.op {
             Op::Openat { flags, .. } => {
+                if *flags & sys::O_TMPFILE == sys::O_TMPFILE {
+                    if ra >= 0 && rb >= 0 {
+                        st.tmpfiles += 1;
+                    } else if rb == -95 {
+                        st.tmpfile_unsupported += 1;
+                    }
+                }
                 if ra >= 0 && rb >= 0 && !mismatch {
                     let isdir = std::fs::metadata(format!("/proc/self/fd/{ra}")).map(|m| m.is_dir()).unwrap_or(false);
                     w.add(TFd {
@@ -667,6 +742,29 @@ fn run_batch(ring: &mut Ring, w: &mut World, b: &mut Batch, serial: &mut u64, sa
             return Err(Fatal::Inconclusive(format!("world reset failed: {e}")));
         }
     }
+    if std::env::var_os("C18_CHECK_PAIRS").is_some() {
+        for i in 0..w.fds.len() {
+            let t = &w.fds[i];
+            if t.alive && t.kind == FdKind::SockEnd && t.pkind == PairKind::UnixStream && t.peer != usize::MAX && w.fds[t.peer].alive {
+                for s in 0..2 {
+                    let y = w.fds[t.peer].fd[s];
+                    if sys::fionread(y) == 0 && sys::fionread(t.fd[s]) == 0 {
+                        let r = sys::sc(44, &[i64::from(t.fd[s]), b"z".as_ptr() as i64, 1, 0x4040, 0, 0]);
+                        let got = sys::fionread(y);
+                        if r == 1 && got == 1 {
+                            let mut b1 = [0u8; 1];
+                            sys::read(y, &mut b1);
+                        } else {
+                            eprintln!("PAIRCHECK batch {} side {s}: T({i}) fd {} -> peer T({}) fd {}: send {r}, peer pending {got}", st.batches, t.fd[s], t.peer, y);
+                            for x in &b.ops {
+                                eprintln!("   op {} -> {} / {} client {:?}", x.describe(), show(i64::from(x.res_a.unwrap_or(0))), show(x.res_b.unwrap_or(0)), x.client);
+                            }
+                        }
+                    }
+                }
+            }
+        }
+    }
     st.batches += 1;
     st.sqes += n as u64;
     if n as u32 == ring.sq_entries {
@@ -759,6 +857,7 @@ fn twin(seed: u64, batches: u64, bits: u32, entries: u32) {
     let mut st = Stats::default();
     let mut clean = 0u64;
     let use_drain = seed & 1 == 1;
+    ring.use_drain = use_drain;
     let mut t_phase = [0u128; 3];
     // watchdog: a batch that does not finish is reported as inconclusive (never as a violation)
     let progress = std::sync::Arc::new(std::sync::Mutex::new((0u64, std::time::Instant::now(), String::new())));
@@ -768,7 +867,7 @@ fn twin(seed: u64, batches: u64, bits: u32, entries: u32) {
             std::thread::sleep(std::time::Duration::from_millis(500));
             let g = progress.lock().unwrap();
             if g.1.elapsed().as_secs() >= 60 {
-                vh::inconclusive(&format!("batch {} did not finish within 60 s: {}", g.0, g.2));
+                vh::inconclusive(&format!("twin {seed} {batches} {bits:x} {entries}: batch {} did not finish within 60 s: {}", g.0, g.2));
                 std::process::exit(3);
             }
         });
@@ -851,6 +950,10 @@ fn twin(seed: u64, batches: u64, bits: u32, entries: u32) {
     vh::count("ops_on_registered_files", st.fixed_file_ops);
     vh::count("submission_split_over_several_enter_calls", st.resubmits);
     vh::count("sqpoll_wakeups", st.wakeups);
+    vh::count("o_tmpfile_files_created_and_compared", st.tmpfiles);
+    vh::count("o_tmpfile_skipped_fs_does_not_support_it", st.tmpfile_unsupported);
+    vh::count("intermediate_flushes_within_a_batch", st.extra_flushes);
+    vh::count("batches_with_partial_first_enter", st.partial_enters);
     vh::count("world_resets_after_mismatch", st.resets);
     vh::count("poll_not_ready_on_direct_side_skipped", st.poll_not_ready);
     vh::count("link_severing_left_to_kernel", st.kernel_dependent_links);
